@@ -58,6 +58,13 @@ def foreign_event(label, raw, tail, wellformed=False):
                                     'u': [[int(sp_.header.typeid) & 0x7F, bool(sp_.header.critical)] for sp_ in p.subpackets._unhashed_sp.values()]}
                 except Exception:
                     pass
+            if type(p).__name__ == 'PKESessionKeyV3':
+                # the integers of the algorithm-specific part as the parsed OBJECT presents them (RSA ids 1 / 2: one, ElGamal ids 16 / 20: two)
+                try:
+                    ct = p.ct
+                    e['objmpis'] = [octets(int(x).to_bytes((int(x).bit_length() + 7) // 8, 'big')) for x in ct] if ct is not None and int(p.pkalg) in (1, 2, 16, 20) else [[256]]
+                except Exception:
+                    e['objmpis'] = [[256]]
             try:
                 b2 = bytearray(o1)
                 p2 = Packet(b2)
